@@ -240,11 +240,15 @@ fn two_frame_histories(ctx: &Ctx, m128: bool) {
     let sp = spec(m128);
     let line = sp.line as usize;
     let top = sp.first_pixel as usize - 24 * line - 16;
-    let places = [120usize, top + 60 * line + 40, top + 218 * line + 10, top + 230 * line + 30];
+    // the last two places lie behind the visible area (bottom retrace): writes there show only in
+    // the following frames
+    let frame = sp.frame as usize;
+    let places = [120usize, top + 60 * line + 40, top + 218 * line + 10, top + 230 * line + 30, frame - 2 * line - 7, frame - line + 50];
+    let pairs = [(0usize, 1usize), (0, 2), (0, 3), (1, 2), (1, 3), (2, 3), (4, 5), (3, 4), (0, 5)];
     let mut jobs = Vec::new();
     for c in 0..16u32 {
-        for (i1, i2) in [(0, 1), (0, 2), (0, 3), (1, 2), (1, 3), (2, 3)] {
-            for (j1, j2) in [(0, 1), (0, 2), (0, 3), (1, 2), (1, 3), (2, 3)] {
+        for (i1, i2) in pairs {
+            for (j1, j2) in pairs {
                 jobs.push((c, i1, i2, j1, j2));
             }
         }
